@@ -69,8 +69,12 @@ def phi_1D(xx, nu=1.0, theta0=1.0, gamma=0, h=0.5, theta=None, beta=1, deme_ids=
     # Evaluate the denominator integral.
     integrand = lambda xi: numpy.exp(-4*gamma*h*xi - 2*gamma*(1-2*h)*xi**2
                                      - Qadjust)
-    int0, eps = scipy.integrate.quad(integrand, 0, 1, epsabs=0,
-                                     points=numpy.linspace(0,1,41))
+    # For strong negative selection the integrand is sharply peaked at xi = 1,
+    # so we add breakpoints that approach 1 geometrically.
+    breaks = numpy.concatenate((numpy.linspace(0,1,41)[:-1],
+                                1 - numpy.logspace(-2,-12,11), [1]))
+    int0, eps = scipy.integrate.quad(integrand, 0, 1, epsabs=0, limit=200,
+                                     points=breaks)
 
     ints = numpy.empty(len(xx))
     # Evaluate the numerator integrals
@@ -79,7 +83,8 @@ def phi_1D(xx, nu=1.0, theta0=1.0, gamma=0, h=0.5, theta=None, beta=1, deme_ids=
         # the numerator as before, using the Qadjust if necessary.
         for ii,q in enumerate(xx):
             val, eps = scipy.integrate.quad(integrand, q, 1, epsabs=0,
-                                            points=numpy.linspace(q,1,41))
+                                            limit=200,
+                                            points=q + (1-q)*breaks)
             ints[ii] = val
         phi = numpy.exp(4*gamma*h*xx + 2*gamma*(1-2*h)*xx**2)*ints/int0
     else:
